@@ -52,6 +52,9 @@ type c02Scn struct {
 	Pre uint64 `json:"pre,omitempty"`
 	Old uint64 `json:"old,omitempty"`
 	New uint64 `json:"new,omitempty"`
+	// growth with a LARGE batch: the chain has Long blocks, most of them empty (rows in blocks 1, 32, 33, 64, 65, ... and
+	// the last one), so that one step covers hundreds of blocks (batch sizes across the 256/257 boundary)
+	Long int `json:"long,omitempty"`
 	// the enumeration of one scenario is split into Parts disjoint slices: slice Part holds the executions
 	// whose FIRST fault hits an I/O point with ordinal = Part (mod Parts)
 	Part  int `json:"part"`
@@ -71,6 +74,9 @@ func (s c02Scn) name() string {
 	case "dep":
 		return fmt.Sprintf("dep:b%dc%d", s.Batch, s.Conc)
 	}
+	if s.Long > 0 {
+		return fmt.Sprintf("growth:%s:b%dc%d:chain-of-%d-mostly-empty-blocks", s.Shape, s.Batch, s.Conc, s.Long)
+	}
 	return fmt.Sprintf("growth:%s:b%dc%d", s.Shape, s.Batch, s.Conc)
 }
 
@@ -88,6 +94,9 @@ func (s c02Scn) class() string {
 	case "dep":
 		return "dep"
 	}
+	if s.Long > 0 {
+		return "growth-large-batch:" + s.Shape
+	}
 	return "growth:" + s.Shape
 }
 
@@ -101,8 +110,8 @@ func init() {
 		ID:        "C02",
 		Level:     "fault_enumeration",
 		Technique: "exhaustive fault enumeration on the real pipeline (instrumented code under the controlled scheduler, fake Postgres, simulated node): every I/O operation of the steps x every fault kind x process death, singly and in pairs; invariant checked in every committed state; differential check of the state after retry against the fault-free run",
-		Rule: "scenarios = growth-only steps for shapes L1 (headers+logs), L2 (logs), T1 (blocks), R1 (blocks+receipts) x (batch,conc) in {1,3}x{1,2}; a step that detects a reorg (3 blocks indexed, then the last 1 or 2 replaced and one appended) for L1 and T1; the same after a position that covers 2 or 3 blocks, with positions that are not aligned to the batch size and replacement blocks whose logs sit at other transaction/log indexes, alone and with a sibling integration of the same source (other table, same table) that sits at the head; a step of a dependent integration with reference look-ups (R indexed first). " +
-			"Per scenario: every I/O point after the set-up (each SQL batch incl. begin/commit/COPY/copydone, each JSON-RPC exchange) x {SQL error, SQL connection drop | rpc error, transport error, HTTP 500, truncated body} and process death (all connections dropped, tasks and clients discarded, re-created by loadTasks); quick: every single fault, and every pair on the batch=1 conc=1 scenarios of L1 and T1 (growth, and reorg of the last block); thorough: every pair. " +
+		Rule: "scenarios = growth-only steps for shapes L1 (headers+logs), L2 (logs), T1 (blocks), R1 (blocks+receipts) x (batch,conc) in {1,3}x{1,2}; growth-only steps with a LARGE batch for L1 and T1: batch in {256, 257, 300} x conc in {1,2} on a chain of 302 mostly empty blocks (rows in blocks 1, 32, 33, 64, 65, ..., 256, 257, 288, 289, 302), so that one step covers 256 / 257 / 300 blocks and the next one the rest; a step that detects a reorg (3 blocks indexed, then the last 1 or 2 replaced and one appended) for L1 and T1; the same after a position that covers 2 or 3 blocks, with positions that are not aligned to the batch size and replacement blocks whose logs sit at other transaction/log indexes, alone and with a sibling integration of the same source (other table, same table) that sits at the head; a step of a dependent integration with reference look-ups (R indexed first). " +
+			"Per scenario: every I/O point after the set-up (each SQL batch incl. begin/commit/COPY/copydone, each JSON-RPC exchange) x {SQL error, SQL connection drop | rpc error, transport error, HTTP 500, truncated body} and process death (all connections dropped, tasks and clients discarded, re-created by loadTasks); quick: every single fault, and every pair on the batch=1 conc=1 scenarios of L1 and T1 (growth, and reorg of the last block); thorough: every pair (large-batch scenarios: every single fault in both tiers). " +
 			"After every step (failed or not) the code under test must hold nothing: no database session inside a transaction and no acquired pool connection; at the end the pool must close. " +
 			"An execution is non-trivial when at least one fault or death was injected.",
 		Assumptions: []string{
@@ -170,6 +179,15 @@ func c02Scenarios(thorough bool) []c02Scn {
 			out = append(out, v)
 		}
 	}
+	// large batches: one step covers hundreds of blocks (batch sizes across the 256/257 boundary, and 300) of a chain of
+	// 302 mostly empty blocks; the second step takes the rest. Single faults (both tiers).
+	for _, sh := range []string{"L1", "T1"} {
+		for _, b := range []int{256, 257, 300} {
+			for _, c := range []int{1, 2} {
+				out = append(out, c02Scn{Kind: "growth", Shape: sh, Batch: b, Conc: c, NF: 1, Long: 302})
+			}
+		}
+	}
 	for _, bc := range [][2]int{{1, 1}, {3, 2}} {
 		out = append(out, c02Scn{Kind: "dep", Batch: bc[0], Conc: bc[1], NF: nf("dep", bc[0], bc[1], 0)})
 	}
@@ -205,6 +223,7 @@ type c02Prep struct {
 	final    *simeth.Chain
 	test     string        // integration under test
 	pre      *simeth.Chain // reorg with unaligned positions: the chain the node serves first
+	word     string        // growth: block kinds of the chain
 	// reference (fault-free) run
 	refFinal string              // canonical final state
 	want     map[string][]string // rendered projection per (integration, chain version, position, size of the referenced table)
@@ -233,7 +252,11 @@ func c02Prepare(s c02Scn) (*c02Prep, error) {
 		decls = []*world.Decl{d}
 		p.pairs = []c02Pair{{"ig1", d, "t1"}}
 		p.test = "ig1"
-		c := buildChain(acWord(2*s.Batch), d, 1)
+		p.word = acWord(2 * s.Batch)
+		if s.Long > 0 {
+			p.word = sparseWord(s.Long)
+		}
+		c := buildChain(p.word, d, 1)
 		p.versions, p.final = []*simeth.Chain{c}, c
 	case "reorg":
 		d := shape(s.Shape, "ig1", "t1", src)
@@ -309,11 +332,15 @@ func c02Prepare(s c02Scn) (*c02Prep, error) {
 	if p.snap, err = world.InitDB(conf); err != nil {
 		return nil, err
 	}
-	// every block must produce rows for the integration under test (a written block is visible)
+	// every block must produce rows for the integration under test (a written block is visible); on the long chains of
+	// the large-batch scenarios: every block that is not declared empty
 	td := p.pairs[len(p.pairs)-1].decl
 	for _, v := range p.versions {
 		for b := uint64(1); b < uint64(len(v.Blocks)); b++ {
 			look := func(string, string, []byte) bool { return true }
+			if s.Long > 0 && p.word[b-1] == 'e' {
+				continue
+			}
 			if len(td.Expect(v, c02Src, c02ChainID, b, b, look)) == 0 {
 				return nil, fmt.Errorf("scenario %s: block %d produces no rows", key, b)
 			}
